@@ -13,6 +13,9 @@ Fixtures == <<
     env  |-> [n |-> 4, txt |-> << <<"a", "E">>, <<"a">>, None, <<"E">> >>,
               names |-> << << <<"x">>, 1 >>, << <<"x", "1">>, 2 >>, << <<"U">>, 3 >> >>]],
    [pat  |-> <<"(", "?", "<", "9", ">", "a", ")", "(", "b", ")">>, text |-> <<"a", "b">>,
-    env  |-> [n |-> 3, txt |-> << <<"a", "b">>, <<"a">>, <<"b">> >>, names |-> << << <<"9">>, 1 >> >>]]
+    env  |-> [n |-> 3, txt |-> << <<"a", "b">>, <<"a">>, <<"b">> >>, names |-> << << <<"9">>, 1 >> >>]],
+   \* the unmatched group is group 1, the one the digits of the template alphabet can name: $1 \1 ${1} \g<1> must insert nothing
+   [pat  |-> <<"(", "b", ")", "?", "(", "a", ")">>, text |-> <<"a">>,
+    env  |-> [n |-> 3, txt |-> << <<"a">>, None, <<"a">> >>, names |-> <<>>]]
 >>
 =============================================================================
